@@ -46,7 +46,7 @@ NAN = float("nan")
 
 C01_OPS = ("create", "update", "remove", "setitem", "setitem_delete", "setitem_func", "setobs",
            "add_af", "operate", "operate_list", "apply", "aggregate", "correlator", "expr", "expr_noeq", "rejected",
-           "operate_any", "aggregate_any", "biop", "coll_feature", "neighbour")
+           "operate_any", "aggregate_any", "biop", "coll_feature", "neighbour", "segment")
 # operator objects whose values are not modelled: the output column is adopted after the call
 # and everything else (names, widths, other columns, positions, timestamps) must be unchanged
 ANY_UNARY = ("FORWARD_FINITE_DIFF", "BACKWARD_FINITE_DIFF", "CENTERED_FINITE_DIFF", "SECOND_ORDER_FINITE_DIFF",
@@ -633,6 +633,9 @@ class TrackWorld(World):
                                   "increment_time", "set_order", "loop", "loop", "idle_begin", "idle_begin", "idle_end"]),
                 "delta": r.choice([1, 2, 0.5, 7]), "idle": r.choice([0.5, 5.0, 50.0]), "alias": r.random() < 0.5, "n": r.choice([2, 3, 5, 9]), "to": r.randrange(self.cfg["sessions"]),
                 "tag0": self.rtagc - 300}
+
+    def _g_segment(self, r, m):
+        return {"in1": self._pick_input(r, m), "out": self._pick_name(r, m), "thr": r.choice([0.0, 2.0, 10.5, 40.0, 1000.0])}
 
     def _g_neighbour(self, r, m):
         return {"what": r.choice(["bbox", "centroid", "length", "compare_nn", "compare_hausdorff", "track_constraint", "time_constraint", "plot", "first_copy", "coords", "kalman_refused", "cut_and_select", "noise_refused"]), "other": r.randrange(self.cfg["sessions"])}
@@ -2537,6 +2540,26 @@ class TrackWorld(World):
                               "geometric definition" % (where, name), jsonable(want), jsonable(got))
                     return False
         return True
+
+    def op_segment(self, st):
+        """algo.segmentation.segmentation marks, in a feature of the caller's choice, the fixes whose value
+        exceeds a threshold (1) and the others (0): one more writer of the feature table, with a one-line
+        definition.  The marker name may already hold something: what is read afterwards is the new marker."""
+        from tracklib.algo.segmentation import segmentation
+        t, m = self._sess(st)
+        if len(m["obs"]) == 0 or st["out"] in RESERVED or not self._numeric(m, st["in1"]) \
+                or m.get("dup_obs") or m.get("loose_rows"):
+            raise Skip()
+        thr = st["thr"]
+        exp = [1 if (v == v and v > thr) else 0 for v in self._col(m, st["in1"])]
+        if st["out"] in m["names"]:
+            self.probe("marker_name_used_again")
+        _, exc = self.call(segmentation, t, st["in1"], st["out"], thr)
+        if exc is not None:
+            return self._unexpected("C01", exc, "segmentation(%r -> %r)" % (st["in1"], st["out"]))
+        self._setcol(m, st["out"], exp)
+        m["fresh"].pop(st["out"], None)
+        self._check_all("C01", "segmentation (marker %r)" % st["out"])
 
     def op_neighbour(self, st):
         """Another module of the library is handed the track to look at (bounding box, centroid, length,
